@@ -210,15 +210,16 @@ def literal : G (Option CompletedMarker) := do
     return none
   if (← at' .STRING) then
     error "Unexpected string literal"
-  let m ← start
   if (← nth 1) == .IDENT then
     if !(← atTs TIMING_LITERAL_FIRST) then
       error "Timing and imaginary literals must begin with an integer or float literal"
     let m2 ← start
+    let m ← start
     bumpAny
     let _ ← m.complete .LITERAL
     let _ ← identifier
     return some (← m2.complete .TIMING_LITERAL)
+  let m ← start
   bumpAny
   return some (← m.complete .LITERAL)
 
